@@ -7,7 +7,7 @@ from . import common
 
 LEVEL = "exploration"
 RULE = ("seeded random groupings (1-3 keys; int/float/str/bool/datetime/categorical with unused categories and non-lexical "
-        "category order; any first-appearance order; named and unnamed keys given as arrays, Series, list or dict) x values "
+        "category order; any first-appearance order; named and unnamed keys given as arrays, Series, list or dict; value and key labels that are strings, integers from 0 or False) x values "
         "given as array / named Series / list / dict / DataFrame / 2-D ndarray (1-3 columns) x sort on/off x observed_only "
         "on/off x masks x 8 reductions. Checked: one index level per key, level names = key names, label order (ascending, "
         "category order, first appearance), only observed labels (or every label the grouping reports, unobserved ones "
